@@ -161,3 +161,42 @@ step_text._bounded = BOUND
 step_raw_text_state._bounded = BOUND
 step_comment_and_end_tag._bounded = BOUND
 step_attribute_values._bounded = BOUND
+
+
+def _step_replay(inputs, ghost, clause):
+    """native replay of a loop-body obligation: drive the real serialize() into the solver's raw-text state with a
+    <style> start tag, feed the token, observe the state afterwards with a probe text token"""
+    import types
+    from html5lib.serializer import HTMLSerializer
+    token = ghost.get("loop_element")
+    in_cdata = bool(ghost.get("loop_state.in_cdata"))
+    opts = {k: v for k, v in inputs["self"].items() if k in HTMLSerializer.options}
+    if in_cdata and opts.get("escape_rcdata"):
+        return None                     # no token sequence reaches that state
+    s = HTMLSerializer(**opts)
+    marks = {}
+
+    def walker():
+        if in_cdata:
+            yield {"type": "StartTag", "name": "style", "data": {}}
+        marks["errors"] = list(s.errors)
+        marks["at"] = len(out)
+        yield token
+        marks["end"] = len(out)
+        yield {"type": "Characters", "data": "<"}
+    out = []
+    for piece in s.serialize(walker()):
+        out.append(piece)
+    yielded = out[marks["at"]:marks["end"]]
+    after = out[marks["end"]:] == ["<"]
+    errors_after = list(s.errors)
+    s.errors = errors_after[:len(errors_after)]       # the probe never records an error unless '</'
+    pre = types.SimpleNamespace(in_cdata=in_cdata, self=types.SimpleNamespace(errors=marks["errors"]))
+    env = dict(yielded=yielded, pre=pre, self=s, token=token, in_cdata=after)
+    import inspect
+    v = clause.fn(**{p: env[p] for p in inspect.signature(clause.fn).parameters})
+    return {"observed": "serialize yields %r for %r (raw text before: %r, after: %r, errors %r)" % (yielded, token, in_cdata, after, errors_after),
+            "clause_value": bool(v), "confirmed": not bool(v)}
+
+
+Serialize.step_replay = staticmethod(_step_replay)
